@@ -922,6 +922,32 @@ def check_filter_build(ctx, cases):
     return classes, list(zip(cases, impl))
 
 
+# ------------------------------------------------------------------------------------------------ (f) the error conversion, called directly
+IO_KINDS = ['NotFound', 'PermissionDenied', 'ConnectionRefused', 'ConnectionReset', 'ConnectionAborted', 'NotConnected', 'AddrInUse', 'AddrNotAvailable',
+            'BrokenPipe', 'AlreadyExists', 'WouldBlock', 'InvalidInput', 'InvalidData', 'TimedOut', 'WriteZero', 'Interrupted', 'Unsupported', 'UnexpectedEof',
+            'OutOfMemory', 'Other']
+
+
+def check_errconv(ctx, cases):
+    """ffi::RequestError::from(rodbus::RequestError) on every variant x every io::ErrorKind x every exception byte: the same-named C
+    value (Spec/FfiSpec.v request_error_alias: Io -> IoError, BadFrame -> BadFraming, Internal -> InternalError; an exception e ->
+    ModbusException<e>); the payload (which I/O error kind) never changes the class"""
+    impl = ctx.harness('ffi_errconv', cases, timeout=300)
+    bad = 0
+    for c, i in zip(cases, impl):
+        p = c.split()
+        want = ('ModbusException' + STD.get(int(p[1]), 'Unknown')) if p[0] == 'Exception' else ALIAS.get(p[0], p[0])
+        if i != want:
+            bad += 1
+            if bad <= 3:
+                val = f'RequestError::Io(ErrorKind::{p[1]})' if p[0] == 'Io' else (f'RequestError::Exception(ExceptionCode::from({p[1]}))' if p[0] == 'Exception' else f'RequestError::{p[0]}')
+                ctx.violation('error-not-same-named.conversion', f'ffi::RequestError::from({val}) = {i}; the same-named C value is {want}'
+                              + (' (every I/O error of the Rust API is reported as IoError, whatever its kind)' if p[0] == 'Io' else ''),
+                              {'cases': [['errconv', c]], 'impl': i, 'spec': want})
+    ctx.oblige('correspondence:request-error-conversion-direct', bad == 0, f'{bad} disagreements on {len(cases)} error values')
+    return len(cases)
+
+
 def run(ctx):
     ctx.translate(['FfiTables.v'])
     models_ok = ctx.build_models(['Base.Show', 'Model.Ffi', 'Spec.FfiSpec', 'Model.FfiWire', 'Model.FfiTls', 'Model.FfiFilter'])
@@ -938,7 +964,9 @@ def run(ctx):
         authz_cases = [c[1] for c in ctx.replay['cases'] if c[0] == 'authz']
         tls_cases = [c[1] for c in ctx.replay['cases'] if c[0] == 'tlscfg']
         fseq_cases = [c[1] for c in ctx.replay['cases'] if c[0] == 'fseq']
+        err_cases = [c[1] for c in ctx.replay['cases'] if c[0] == 'errconv']
     else:
+        err_cases = [f'Io {k}' for k in IO_KINDS] + [f'Exception {b}' for b in range(256)] + ['Internal', 'NoConnection', 'BadFrame', 'Shutdown', 'ResponseTimeout', 'BadRequest', 'BadResponse']
         tls_cases = gen_tls_cases()
         fseq_cases = gen_fseq_cases(ctx)
         server_cases = gen_server_cases(ctx, thorough)
@@ -956,6 +984,8 @@ def run(ctx):
     tc, t_samples = {}, []
     if tls_cases:
         tc, t_samples = check_tls_config(ctx, tls_cases)
+    if err_cases:
+        check_errconv(ctx, err_cases)
     fc_ = {}
     if fseq_cases:
         fc_, _ = check_filter_build(ctx, fseq_cases)
